@@ -627,6 +627,20 @@ func (x *Exec) applyContract(st *State, fr *Frame, fc *FuncContract, key string,
 	for _, l := range locs {
 		x.calleeFrameDuty(st, l, key, pos)
 	}
+	// a callee of the verified packages that acquires the mutex of object r (its contract assigns held[r]) opens a
+	// critical section of its own: for the one-critical-section-per-method duty it counts like a Lock of r here
+	if !fc.Trusted && !strings.Contains(key, "->") {
+		for _, l := range locs {
+			if l.ghost == "held" && l.gkey != nil {
+				for _, r := range st.locks {
+					if same(r, l.gkey) {
+						x.oblige(st, "lock-once", x.pos(pos), "one critical section per method (linearization point): "+key+" locks the same mutex again", []string{"C14"}, tFalse)
+					}
+				}
+				st.locks = append(st.locks, l.gkey)
+			}
+		}
+	}
 	for _, l := range locs {
 		x.havocLoc(st, l)
 	}
